@@ -96,14 +96,28 @@ func (fx *fnExec) eval(e *Expr, env *Env) TV {
 			return v
 		}
 		if env.fr != nil {
+			if al, ok := env.fr.cells[e.Name]; ok {
+				if pv, ok := env.fr.vals[al].(PtrV); ok {
+					return TV{fx.load(env.cur, pv), pv.Elem}
+				}
+			}
 			if v, ok := env.fr.resolveName(e.Name, env.at, env.atEnd); ok {
 				return v
 			}
 		}
-		// package-level constant?
+		// package-level constant or variable (variables are read-only after init: one constant per leaf)
 		if obj := env.pkg.Scope().Lookup(e.Name); obj != nil {
 			if c, ok := obj.(*types.Const); ok {
 				return fx.constTV(c)
+			}
+			if v, ok := obj.(*types.Var); ok {
+				ht := "global:" + env.pkg.Name() + "." + v.Name()
+				ls := fx.g.leaves(v.Type())
+				terms := make([]string, len(ls))
+				for i, l := range ls {
+					terms[i] = fx.s.decl(ht+l.Path, l.S)
+				}
+				return TV{fx.g.fromLeaves(v.Type(), terms), v.Type()}
 			}
 		}
 		panic(contractErr("unknown identifier " + e.Name + " in " + fx.fn.String()))
@@ -178,6 +192,10 @@ func (fx *fnExec) eval(e *Expr, env *Env) TV {
 		body := fx.evalBool(e.Args[0], env2)
 		fx.s.usesQuant = true
 		if e.Op == "forall" {
+			if nb, ok := absolutise(body, sym(v), sym(v+"a")); ok {
+				body = nb
+				v = v + "a"
+			}
 			if trg := triggers(body, sym(v)); len(trg) > 0 && len(trg) <= 6 {
 				var pats []string
 				for _, t := range trg {
@@ -425,8 +443,14 @@ func (fx *fnExec) evalCall(e *Expr, env *Env) TV {
 		v := fx.eval(e.Args[0], env)
 		switch x := v.V.(type) {
 		case StrV:
+			if env.qdepth == 0 {
+				fx.s.assert(app("<=", "0", x.Len)) // lengths are never negative
+			}
 			return TV{Sc{x.Len, SInt}, tInt}
 		case SliceV:
+			if env.qdepth == 0 {
+				fx.s.assert(app("<=", "0", x.Len))
+			}
 			return TV{Sc{x.Len, SInt}, tInt}
 		}
 		panic(contractErr("len of " + fmt.Sprintf("%T", v.V)))
@@ -456,6 +480,18 @@ func (fx *fnExec) evalCall(e *Expr, env *Env) TV {
 			panic(contractErr("fresh of non-reference"))
 		}
 		return TV{Sc{app(">=", app("birth", a), env.old.now), SBool}, tBool}
+	case "freshRef": // references: nil or allocated during the call; other values: true
+		v := fx.eval(e.Args[0], env)
+		var a string
+		switch x := v.V.(type) {
+		case PtrV:
+			a = x.Addr
+		case IfV:
+			a = x.Ref
+		default:
+			return TV{Sc{"true", SBool}, tBool}
+		}
+		return TV{Sc{or(eq(a, "0"), app(">=", app("birth", a), env.old.now)), SBool}, tBool}
 	case "typeIs": // typeIs(x, "*pkg.T")
 		v := fx.eval(e.Args[0], env).V.(IfV)
 		tn := e.Args[1].Str
@@ -464,6 +500,15 @@ func (fx *fnExec) evalCall(e *Expr, env *Env) TV {
 			panic(contractErr("unknown type " + tn))
 		}
 		return TV{Sc{eq(v.Tag, num(int64(tag))), SBool}, tBool}
+	case "notNil": // reference results: non-nil and not a typed nil; anything else: true
+		v := fx.eval(e.Args[0], env)
+		switch x := v.V.(type) {
+		case IfV:
+			return TV{Sc{and(not(eq(x.Tag, "0")), not(eq(x.Ref, "0"))), SBool}, tBool}
+		case PtrV:
+			return TV{Sc{not(eq(x.Addr, "0")), SBool}, tBool}
+		}
+		return TV{Sc{"true", SBool}, tBool}
 	case "isNil":
 		v := fx.eval(e.Args[0], env)
 		switch x := v.V.(type) {
@@ -580,18 +625,76 @@ type modLoc struct {
 	leaf      string
 	sort      Sort
 	addr      string   // "" = every object
+	except    string   // with addr == "": every object that is this one or was allocated during the call
 	viaLeaves []string // leaves read to compute addr (for loop-havoc decisions)
 }
 
 // modLocs evaluates a modifies path of contract c (of function fn) with the given argument values
 // (nil = fn's own parameters) in state st.
 func (fx *fnExec) modLocs(fn *ssa.Function, c *Contract, m *Expr, args []Val, st *State) []modLoc {
+	return fx.modLocsEnv(fx.calleeEnv(fn, c, args, st, st), m, st)
+}
+
+func (fx *fnExec) modLocsEnv(env *Env, m *Expr, st *State) []modLoc {
 	g := fx.g
-	env := fx.calleeEnv(fn, c, args, st, st)
 	star := false
 	if m.Op == "sel" && m.Name == "*" {
 		star = true
 		m = m.Args[0]
+	}
+	// cur(path)[.field...]: the object `path` points to at entry, or any object allocated during the call
+	curMode := false
+	var curFields []string
+	{
+		e := m
+		var fields []string
+		for e.Op == "sel" {
+			fields = append([]string{e.Name}, fields...)
+			e = e.Args[0]
+		}
+		if e.Op == "call" && e.Name == "cur" {
+			curMode = true
+			curFields = fields
+			m = e.Args[0]
+		}
+		if e.Op == "call" && e.Name == "node" {
+			// node(x).F: field F of the node that interface x holds, whatever its dynamic type
+			v := fx.eval(e.Args[0], env)
+			iv, ok := v.V.(IfV)
+			if !ok {
+				panic(contractErr("modifies: node() expects an interface value"))
+			}
+			var out []modLoc
+			for _, si := range g.nodeStructs() {
+				t := types.Type(si.named)
+				path := ""
+				okPath := true
+				for _, f := range fields {
+					stt := structOf(t)
+					found := false
+					for i := 0; stt != nil && i < stt.NumFields(); i++ {
+						if stt.Field(i).Name() == f {
+							path += "." + f
+							t = stt.Field(i).Type()
+							found = true
+						}
+					}
+					if !found {
+						okPath = false
+						break
+					}
+				}
+				if !okPath {
+					continue
+				}
+				ht := g.heapTypeName(si.named)
+				for _, l := range g.leaves(t) {
+					out = append(out, modLoc{leaf: ht + path + l.Path, sort: l.S, addr: iv.Ref})
+					g.leafSorts[ht+path+l.Path] = l.S
+				}
+			}
+			return out
+		}
 	}
 	// m is a path: id(.field)*
 	var via []string
@@ -648,6 +751,34 @@ func (fx *fnExec) modLocs(fn *ssa.Function, c *Contract, m *Expr, args []Val, st
 	loc := walk(m)
 	p := loc.V.(PtrV)
 	var out []modLoc
+	if curMode {
+		// loc is the location of a pointer field; the target object is its current value
+		tgt := fx.load(st, p).(PtrV)
+		for _, l := range g.leaves(p.Elem) {
+			via = append(via, p.HT+p.Path+l.Path)
+		}
+		path := ""
+		elemT := tgt.Elem
+		for _, f := range curFields {
+			stt := structOf(elemT)
+			found := false
+			for i := 0; stt != nil && i < stt.NumFields(); i++ {
+				if stt.Field(i).Name() == f {
+					path += "." + f
+					elemT = stt.Field(i).Type()
+					found = true
+				}
+			}
+			if !found {
+				panic(contractErr("modifies: no field " + f + " under cur(...)"))
+			}
+		}
+		for _, l := range g.leaves(elemT) {
+			out = append(out, modLoc{leaf: tgt.HT + path + l.Path, sort: l.S, addr: "", except: tgt.Addr, viaLeaves: via})
+			g.leafSorts[tgt.HT+path+l.Path] = l.S
+		}
+		return out
+	}
 	elem := p.Elem
 	if !star {
 		if _, isPtrToPtr := loc.T.Underlying().(*types.Pointer); isPtrToPtr && m.Op == "id" {
@@ -688,6 +819,9 @@ func (fx *fnExec) calleeEnv(fn *ssa.Function, c *Contract, args []Val, cur, old 
 			n = fmt.Sprintf("arg%d", i)
 		}
 		env.vars[n] = TV{args[i], typs[i]}
+	}
+	if fn.Signature.Recv() != nil && len(args) > 0 {
+		env.vars["recv"] = TV{args[0], typs[0]}
 	}
 	// lets of the callee contract (evaluated in its pre-state)
 	if c != nil {
